@@ -80,12 +80,14 @@ Definition dec_coutcome (x : sx) : coutcome :=
   end.
 
 (** history step: [0; (txids)] local L0 set | [2; k] remote retention below k |
-    [3; maxfiles; (schedule)] Replica.sync | [4; attempts; (schedule)] bounded retry of Replica.Sync *)
+    [3; maxfiles; (schedule)] Replica.sync | [4; attempts; (schedule)] bounded retry of Replica.Sync |
+    [5; t] a snapshot 1..t appears at level 9 *)
 Definition dec_hstep (x : sx) : hstep :=
   match asNat (nthx 0 x) with
   | 0 => HLocal (asNs (nthx 1 x))
   | 2 => HRetain (asN (nthx 1 x))
   | 3 => HSync (asN (nthx 1 x)) (map dec_coutcome (asL (nthx 2 x)))
+  | 5 => HSnap (asN (nthx 1 x))
   | _ => HRetry (asNat (nthx 1 x)) (map dec_coutcome (asL (nthx 2 x)))
   end.
 
